@@ -26,4 +26,13 @@ Section Tie.
 
   Theorem src_load_save_only_if : (forall s : store Ent, src_load Ent D parse (src_save Ent D dump s) = s) -> forall e, parse (dump e) = e.
   Proof. intros R. apply (restore_save_only_if Ent D dump parse). intros s. rewrite <- src_save_is_save_store, <- src_load_is_restore_store. apply R. Qed.
+  (* checkpointing a store restored from a checkpoint reproduces that checkpoint (the bytes a resumed run hashes and hands on are
+     the ones it was given), and a checkpoint survives any number of restore / save round trips *)
+  Theorem src_save_load_save (s : store Ent) : (forall e, parse (dump e) = e) ->
+    src_save Ent D dump (src_load Ent D parse (src_save Ent D dump s)) = src_save Ent D dump s.
+  Proof. intros E. rewrite src_load_save by exact E. reflexivity. Qed.
+
+  Theorem src_roundtrips_fix_checkpoint (s : store Ent) (n : nat) : (forall e, parse (dump e) = e) ->
+    Nat.iter n (fun c => src_save Ent D dump (src_load Ent D parse c)) (src_save Ent D dump s) = src_save Ent D dump s.
+  Proof. intros E. induction n as [|n IH]; [reflexivity|]. change (src_save Ent D dump (src_load Ent D parse (Nat.iter n (fun c => src_save Ent D dump (src_load Ent D parse c)) (src_save Ent D dump s))) = src_save Ent D dump s). rewrite IH. apply src_save_load_save. exact E. Qed.
 End Tie.
